@@ -200,7 +200,7 @@ def _fact_run(repo, handler_name, fac_spec, sf_spec, cond_value=None):
         operand_meaning.append(mean)
     sf = [(_CondMarker(cond_value) if isinstance(x, str) else x) for x in sf_spec]
     h = repo.mod(FACT).func(handler_name)
-    out = it.call_func(h.node, [None, fac, sf, F])
+    out = it.call_f(h, [None, fac, sf, F])
     if not isinstance(out, dict):
         raise AnalysisError(f"{handler_name}: result is not a factor map")
     total = Rat.const(0)
